@@ -14,6 +14,7 @@ section
 @[simp] theorem setPc_slot (s : State) (t : Nat) (p : Pc) : (setPc s t p).slot = s.slot := rfl
 @[simp] theorem setPc_payload (s : State) (t : Nat) (p : Pc) : (setPc s t p).payload = s.payload := rfl
 @[simp] theorem setPc_published (s : State) (t : Nat) (p : Pc) : (setPc s t p).published = s.published := rfl
+@[simp] theorem setPc_nxt (s : State) (t : Nat) (p : Pc) : (setPc s t p).nxt = s.nxt := rfl
 @[simp] theorem setPc_outer (s : State) (t : Nat) (p : Pc) : (setPc s t p).outer = s.outer := rfl
 @[simp] theorem setPc_tok (s : State) (t : Nat) (p : Pc) : (setPc s t p).tok = s.tok := rfl
 @[simp] theorem setPc_calls (s : State) (t : Nat) (p : Pc) : (setPc s t p).calls = s.calls := rfl
@@ -126,10 +127,11 @@ structure Inv (c : Cfg) (s : State) : Prop where
       ∧ s.outer = outerOf c s.payload ∧ s.outerSets = (if c.adapter = Adapter.conv then 1 else 0)
   fresh_state : s.tok ≠ Tok.used → s.saw = [] ∧ s.convIn = [] ∧ s.outer = none ∧ s.outerSets = 0
   pre_ready : c.pre.isSome = true → s.slot = Slot.ready
+  nxt_null : s.nxt = Slot.null
 
 theorem inv_init (c : Cfg) (hwf : c.WF) : Inv c (init c) := by
   have hpos := hwf.pos
-  refine ⟨?_, ?_, ?_, ?_, ?_, ?_, ?_, ?_, ?_, ?_, ?_, ?_, ?_, ?_, ?_, ?_, ?_, ?_, ?_⟩ <;> simp only [init]
+  refine ⟨?_, ?_, ?_, ?_, ?_, ?_, ?_, ?_, ?_, ?_, ?_, ?_, ?_, ?_, ?_, ?_, ?_, ?_, ?_, ?_⟩ <;> simp only [init, initWith]
   · intro t ht; simp; omega
   · intro t
     by_cases h : t < c.n
@@ -195,8 +197,8 @@ theorem slot_cases (s : State) : s.slot = Slot.null ∨ s.slot = Slot.node ∨ s
   cases s.slot <;> simp
 
 macro "inv_tac" h:ident : tactic => `(tactic| (
-  obtain ⟨h1, h2, h3, h4, h5, h6, h7, h8, h9, h10, h11, h12, h13, h14, h15, h16, h17, h18, h19⟩ := $h
-  refine ⟨?_, ?_, ?_, ?_, ?_, ?_, ?_, ?_, ?_, ?_, ?_, ?_, ?_, ?_, ?_, ?_, ?_, ?_, ?_⟩ <;> simp only [setPc_pc, setPc_owner, setPc_slot, setPc_payload, setPc_published, setPc_outer, setPc_tok, setPc_calls, setPc_saw, setPc_convIn, setPc_outerSets, setPc_allocs, setPc_frees, setPc_wins, setPc_winner, upd_apply]
+  obtain ⟨h1, h2, h3, h4, h5, h6, h7, h8, h9, h10, h11, h12, h13, h14, h15, h16, h17, h18, h19, h20⟩ := $h
+  refine ⟨?_, ?_, ?_, ?_, ?_, ?_, ?_, ?_, ?_, ?_, ?_, ?_, ?_, ?_, ?_, ?_, ?_, ?_, ?_, ?_⟩ <;> simp only [setPc_nxt, setPc_pc, setPc_owner, setPc_slot, setPc_payload, setPc_published, setPc_outer, setPc_tok, setPc_calls, setPc_saw, setPc_convIn, setPc_outerSets, setPc_allocs, setPc_frees, setPc_wins, setPc_winner, upd_apply]
   all_goals grind [slot_cases, pcOK, whoOK, Who.outside, passed, isResolve, holds, waiting, winPayload]))
 
 variable (c : Cfg) (s : State) (t : Nat)
@@ -241,12 +243,17 @@ theorem inv_start_mk (hwf : c.WF) (h : Inv c s) (hpc : s.pc 0 = Pc.gStart) (ha :
   unfold prep
   inv_tac h
 
-theorem inv_cas_ok (h : Inv c s) (hpc : s.pc 0 = Pc.gCas) (hs : s.slot = Slot.null) :
+theorem inv_cas_ok (h : Inv c s) (hpc : s.pc 0 = Pc.gCas) (hs : s.slot = s.nxt) :
     Inv c { setPc s 0 Pc.gParked with slot := Slot.node, tok := Tok.slot } := by
   inv_tac h
 
-theorem inv_cas_refused (h : Inv c s) (hpc : s.pc 0 = Pc.gCas) (hs : s.slot ≠ Slot.null) (k : Nat) :
-    Inv c (setPc s 0 (Pc.comp k Who.reg)) := by
+theorem inv_cas_refused (h : Inv c s) (hpc : s.pc 0 = Pc.gCas) (hs : s.slot = Slot.ready) (k : Nat) :
+    Inv c { setPc s 0 (Pc.comp k Who.reg) with nxt := Slot.null } := by
+  inv_tac h
+
+/-- the retry branch of the CAS loop is dead: the only other value the slot could hold is the adapter's own node -/
+theorem inv_cas_retry (h : Inv c s) (hpc : s.pc 0 = Pc.gCas) (hs1 : s.slot ≠ s.nxt) (hs2 : s.slot ≠ Slot.ready) :
+    Inv c { setPc s 0 Pc.gCas with nxt := s.slot } := by
   inv_tac h
 
 end
@@ -291,7 +298,8 @@ theorem payloadOf_dt (h : isDt c t = true) : payloadOf c t = Outcome.none := by
 
 theorem inv_resolve_node (h : Inv c s) (dt : Bool) (hpc : s.pc t = Pc.rResolve dt) (hs : s.slot = Slot.node) (k : Nat) :
     Inv c { setPc s t (Pc.comp k (if dt = true then Who.dt else Who.res)) with
-              payload := (if dt = true then s.payload else payloadOf c t), slot := Slot.ready, tok := Tok.agent t } := by
+              payload := (if dt = true then s.payload else payloadOf c t), slot := Slot.ready, tok := Tok.agent t,
+              nxt := Slot.null } := by
   have hd := payloadOf_dt c t
   cases dt <;> simp only [Bool.false_eq_true, if_false, if_true] <;> inv_tac h
 
@@ -342,10 +350,12 @@ theorem inv_retStep (h : Inv c s) (dt : Bool) (hpc : s.pc t = Pc.rRet dt) : Inv 
 
 theorem inv_casStep (h : Inv c s) (hpc : s.pc 0 = Pc.gCas) : Inv c (casStep c s).1 := by
   unfold casStep
-  cases hs : s.slot with
-  | null => exact inv_cas_ok c s h hpc hs
-  | node => exact inv_cas_refused c s h hpc (by simp [hs]) _
-  | ready => exact inv_cas_refused c s h hpc (by simp [hs]) _
+  by_cases hs : s.slot = s.nxt
+  · rw [if_pos hs]; exact inv_cas_ok c s h hpc hs
+  · rw [if_neg hs]
+    by_cases hr : s.slot = Slot.ready
+    · rw [if_pos hr]; exact inv_cas_refused c s h hpc hr _
+    · rw [if_neg hr]; exact inv_cas_retry c s h hpc hs hr
 
 theorem inv_startStep (hwf : c.WF) (h : Inv c s) (hpc : s.pc 0 = Pc.gStart) : Inv c (startStep c s).1 := by
   unfold startStep
@@ -441,5 +451,10 @@ theorem inv_reachable (hwf : c.WF) (sched : List Nat) : Inv c (run c (init c) sc
   inv_run c hwf sched _ (inv_init c hwf)
 
 end
+
+/-- `P` holds for every operation of a sequence and the final state `runOps` computed for it (lists of equal length) -/
+inductive Pointwise (P : OpRun → State → Prop) : List OpRun → List State → Prop where
+  | nil : Pointwise P [] []
+  | cons {o s os ss} : P o s → Pointwise P os ss → Pointwise P (o :: os) (s :: ss)
 
 end Cocls.Callback
